@@ -1,0 +1,53 @@
+// Copyright 2015 Light Code Labs, LLC
+//
+// Licensed under the Apache License, Version 2.0 (the "License");
+// you may not use this file except in compliance with the License.
+// You may obtain a copy of the License at
+//
+//     http://www.apache.org/licenses/LICENSE-2.0
+//
+// Unless required by applicable law or agreed to in writing, software
+// distributed under the License is distributed on an "AS IS" BASIS,
+// WITHOUT WARRANTIES OR CONDITIONS OF ANY KIND, either express or implied.
+// See the License for the specific language governing permissions and
+// limitations under the License.
+
+package httpserver
+
+import (
+	"net"
+	"os"
+	"syscall"
+)
+
+// listenerFile returns a duplicate of ln's socket as an *os.File, for
+// handing the socket over to a new server on a graceful restart.
+//
+// It does not use ln.File(): a file obtained that way switches the socket
+// to blocking mode as soon as its Fd method is called, which
+// net.FileListener does. The duplicate shares its file status flags with
+// the listener that is still in use, so an Accept call of the old server
+// that enters the kernel in that moment blocks in the system call for
+// good, and closing the old listener afterwards never returns (the reload
+// hangs). A file made by os.NewFile from a descriptor that already is
+// non-blocking leaves the mode alone.
+func listenerFile(ln *net.TCPListener) (*os.File, error) {
+	rc, err := ln.SyscallConn()
+	if err != nil {
+		return nil, err
+	}
+	var (
+		newFd uintptr
+		errno syscall.Errno
+	)
+	err = rc.Control(func(fd uintptr) {
+		newFd, _, errno = syscall.Syscall(syscall.SYS_FCNTL, fd, syscall.F_DUPFD_CLOEXEC, 0)
+	})
+	if err != nil {
+		return nil, err
+	}
+	if errno != 0 {
+		return nil, os.NewSyscallError("fcntl", errno)
+	}
+	return os.NewFile(newFd, "tcp:"+ln.Addr().String()), nil
+}
